@@ -240,22 +240,28 @@ static uint64_t run_op(int op) {
       free(x); free(y); free(v);
       break;
     }
-    case 14: {  // simple: reim fft / ifft
-      const uint64_t m = 8;
-      double* v = al(16 * m);
-      fill_dbl(v, 2 * m, &s);
-      reim_fft_simple(m, v); h = fnv(h, v, 16 * m);
-      reim_ifft_simple(m, v); h = fnv(h, v, 16 * m);
-      free(v);
+    case 14: {  // simple: reim and cplx fft / ifft, two dimensions per call (threads are in different dimensions at the same time)
+      for (int k = 0; k < 2; ++k) {
+        const uint64_t m = k ? 64 : 8;
+        double* v = al(16 * m);
+        fill_dbl(v, 2 * m, &s);
+        reim_fft_simple(m, v); h = fnv(h, v, 16 * m);
+        reim_ifft_simple(m, v); h = fnv(h, v, 16 * m);
+        cplx_fft_simple(m, v); h = fnv(h, v, 16 * m);
+        cplx_ifft_simple(m, v); h = fnv(h, v, 16 * m);
+        free(v);
+      }
       break;
     }
-    case 15: {  // simple: cplx fftvec
-      const uint64_t m = 16;
-      double *a = al(16 * m), *b = al(16 * m), *r = al(16 * m);
-      fill_dbl(a, 2 * m, &s); fill_dbl(b, 2 * m, &s); fill_dbl(r, 2 * m, &s);
-      cplx_fftvec_mul_simple(m, r, a, b); h = fnv(h, r, 16 * m);
-      cplx_fftvec_addmul_simple(m, r, a, b); h = fnv(h, r, 16 * m);
-      free(a); free(b); free(r);
+    case 15: {  // simple: cplx fftvec, two dimensions per call
+      for (int k = 0; k < 2; ++k) {
+        const uint64_t m = k ? 8 : 64;
+        double *a = al(16 * m), *b = al(16 * m), *r = al(16 * m);
+        fill_dbl(a, 2 * m, &s); fill_dbl(b, 2 * m, &s); fill_dbl(r, 2 * m, &s);
+        cplx_fftvec_mul_simple(m, r, a, b); h = fnv(h, r, 16 * m);
+        cplx_fftvec_addmul_simple(m, r, a, b); h = fnv(h, r, 16 * m);
+        free(a); free(b); free(r);
+      }
       break;
     }
     case 16:
@@ -282,19 +288,21 @@ static uint64_t run_op(int op) {
       free(y); free(v);
       break;
     }
-    case 20: {  // simple: reim4 layout conversions and products
-      const uint64_t m = 16;
-      double *a = al(16 * m), *b = al(16 * m), *r = al(16 * m);
-      fill_dbl(a, 2 * m, &s); fill_dbl(b, 2 * m, &s);
-      reim4_from_cplx_simple(m, r, a); h = fnv(h, r, 16 * m);
-      reim4_to_cplx_simple(m, b, r); h = fnv(h, b, 16 * m);
-      reim4_fftvec_mul_simple(m, r, a, b); h = fnv(h, r, 16 * m);
-      reim4_fftvec_addmul_simple(m, r, a, b); h = fnv(h, r, 16 * m);
-      free(a); free(b); free(r);
+    case 20: {  // simple: reim4 layout conversions and products, two dimensions per call
+      for (int k = 0; k < 2; ++k) {
+        const uint64_t m = k ? 128 : 16;
+        double *a = al(16 * m), *b = al(16 * m), *r = al(16 * m);
+        fill_dbl(a, 2 * m, &s); fill_dbl(b, 2 * m, &s);
+        reim4_from_cplx_simple(m, r, a); h = fnv(h, r, 16 * m);
+        reim4_to_cplx_simple(m, b, r); h = fnv(h, b, 16 * m);
+        reim4_fftvec_mul_simple(m, r, a, b); h = fnv(h, r, 16 * m);
+        reim4_fftvec_addmul_simple(m, r, a, b); h = fnv(h, r, 16 * m);
+        free(a); free(b); free(r);
+      }
       break;
     }
-    case 21: {  // simple: conversions keyed by dimension, and the pointwise reim products
-      const uint64_t m = 16;
+    case 21: for (int k21 = 0; k21 < 2; ++k21) {  // simple: conversions keyed by dimension, and the pointwise reim products, two dimensions
+      const uint64_t m = k21 ? 4 : 32;
       int64_t* x = al(16 * m);
       int32_t* x32 = al(8 * m);
       double *v = al(16 * m), *w = al(16 * m), *r = al(16 * m);
@@ -307,8 +315,8 @@ static uint64_t run_op(int op) {
       reim_fftvec_mul_simple(m, r, v, w); h = fnv(h, r, 16 * m);
       reim_fftvec_addmul_simple(m, r, v, w); h = fnv(h, r, 16 * m);
       free(x); free(x32); free(v); free(w); free(r);
-      break;
     }
+      break;
     case 22:
     case 23:
     case 24: {  // own NTT120 module of dimension 16 / 128 / 1024: constructors running side by side in several threads
